@@ -161,10 +161,92 @@ pub fn run_a(ctx: &Ctx, rep: &mut Report) {
     }
 }
 
+/// The real HTTP client's retry loop (`TrackerClient::run`) against a scripted loopback tracker:
+/// after any sequence of faults it must report each failure, keep retrying, report the good reply
+/// and end. Real time: failures are retried after 1 s, so sequences are short and run in parallel.
+pub fn run_client(ctx: &Ctx, rep: &mut Report) {
+    use rdest::verif::TrackerCmd;
+    use tokio::io::{AsyncReadExt, AsyncWriteExt};
+    rep.need("client_fault_sequences_survived", 8);
+    std::env::set_var("NO_PROXY", "127.0.0.1,localhost");
+    std::env::set_var("no_proxy", "127.0.0.1,localhost");
+    for v in ["HTTP_PROXY", "http_proxy", "HTTPS_PROXY", "https_proxy", "ALL_PROXY", "all_proxy"] { std::env::remove_var(v); }
+    let rt = tokio::runtime::Builder::new_current_thread().enable_all().build().unwrap();
+    let mut r = ctx.rng("c19-client");
+    const KINDS: [&str; 6] = ["close-at-once", "http-500", "http-404", "garbage-body", "failure-reason", "empty-body"];
+    let n = ctx.count(32, 320);
+    rt.block_on(async {
+        let listener = match tokio::net::TcpListener::bind("127.0.0.1:0").await { Ok(l) => l, Err(e) => { rep.inconclusive(format!("cannot bind loopback: {}", e)); return; } };
+        let port = listener.local_addr().unwrap().port();
+        for k in 0..n {
+            // lengths 1..5, now and then 6..7 (a retry budget of five would show)
+            let len = if k % 8 == 7 { r.range(6, 7) } else { r.range(1, 5) } as usize;
+            let faults: Vec<usize> = (0..len).map(|_| r.usize(KINDS.len())).collect();
+            let torrent = format!("d8:announce{}:http://127.0.0.1:{}/a4:infod6:lengthi1e4:name1:x12:piece lengthi16e6:pieces20:AAAAABBBBBCCCCCDDDDDee", format!("http://127.0.0.1:{}/a", port).len(), port);
+            let m = match rdest::Metainfo::from_bencode(torrent.as_bytes()) { Ok(m) => m, Err(e) => { rep.inconclusive(format!("harness torrent rejected: {}", e)); continue; } };
+            let (tx, mut rx) = tokio::sync::mpsc::channel(64);
+            let mut client = rdest::TrackerClient::new(b"-RD0001-verifclient0", m, tx);
+            let job = tokio::spawn(async move { client.run().await });
+            rep.evaluations += 1;
+            let names: Vec<&str> = faults.iter().map(|f| KINDS[*f]).collect();
+            let budget = std::time::Duration::from_secs(10 + 2 * len as u64);
+            let served = tokio::time::timeout(budget, async {
+                for step in 0..=len {
+                    let (mut sock, _) = listener.accept().await.ok()?;
+                    let mut buf = vec![];
+                    let mut tmp = [0u8; 2048];
+                    loop {
+                        let n = sock.read(&mut tmp).await.ok()?;
+                        if n == 0 { break; }
+                        buf.extend_from_slice(&tmp[..n]);
+                        if buf.windows(4).any(|w| w == b"\r\n\r\n") { break; }
+                    }
+                    let body: Option<(&str, Vec<u8>)> = if step == len { Some(("200 OK", b"d8:intervali1800e5:peerslee".to_vec())) } else {
+                        match faults[step] { 0 => None, 1 => Some(("500 Internal Server Error", vec![])), 2 => Some(("404 Not Found", b"nope".to_vec())), 3 => Some(("200 OK", b"<html>\x00\xff".to_vec())), 4 => Some(("200 OK", b"d14:failure reason4:busye".to_vec())), _ => Some(("200 OK", vec![])) }
+                    };
+                    if let Some((status, b)) = body {
+                        let head = format!("HTTP/1.1 {}\r\nContent-Length: {}\r\nConnection: close\r\n\r\n", status, b.len());
+                        let _ = sock.write_all(head.as_bytes()).await;
+                        let _ = sock.write_all(&b).await;
+                    }
+                    let _ = sock.shutdown().await;
+                }
+                Some(())
+            }).await;
+            // what the client reported
+            let mut reports = vec![];
+            let deadline = tokio::time::Instant::now() + std::time::Duration::from_secs(5);
+            loop {
+                match tokio::time::timeout_at(deadline, rx.recv()).await {
+                    Ok(Some(TrackerCmd::Fail(_))) => reports.push("fail"),
+                    Ok(Some(TrackerCmd::TrackerResp(_))) => { reports.push("ok"); break; }
+                    _ => break,
+                }
+            }
+            let ended = tokio::time::timeout(std::time::Duration::from_secs(3), job).await.is_ok();
+            let want: Vec<&str> = std::iter::repeat("fail").take(len).chain(std::iter::once("ok")).collect();
+            let w = serde_json::json!({"engine": "real TrackerClient against a scripted loopback tracker", "faults": names, "client_reported": reports, "all_requests_arrived": served.is_ok(), "task_ended": ended});
+            if reports == want && ended {
+                rep.count("client_fault_sequences_survived", 1);
+                rep.distinct(&("client", &faults));
+                for f in &names { rep.set("client_fault_kinds", *f); }
+                if k % 8 == 0 { rep.sample(w); }
+            } else if served.is_err() && reports.len() < want.len() {
+                rep.violation("C19:http-client-stops-retrying", format!("after the faults {:?} the client made too few announces (reported {:?}); the good reply was never fetched", names, reports), w);
+            } else {
+                rep.violation("C19:http-client-misreports", format!("after the faults {:?} the client reported {:?} (expected {:?}), task ended: {}", names, reports, want, ended), w);
+            }
+        }
+    });
+}
+
 pub fn run(ctx: &Ctx) -> Report {
     let mut rep = Report::new();
     if ctx.want("replies") {
         run_a(ctx, &mut rep);
+    }
+    if ctx.want("client") {
+        run_client(ctx, &mut rep);
     }
     if ctx.want("faults") {
         crate::sim::c19b::run(ctx, &mut rep);
